@@ -405,4 +405,40 @@ def rule_store(ctx) -> RuleResult:
     return res
 
 
-RULES = [rule_keys, rule_prop, rule_copy, rule_store]
+def rule_mangle(ctx) -> RuleResult:
+    res = RuleResult(
+        "C20.MANGLE",
+        "C20",
+        "every class-private name (self.__X / cls.__X) read in a survey class is defined in that same class body "
+        "(private names are mangled per class: an override that reads the parent's __X raises AttributeError, which makes "
+        "the shared survey parameters behind it — unit, input type — impossible to read or edit)",
+        floor=10,
+    )
+    p = ctx.p
+    for K in p.classes:
+        if K.synthetic or "objects/surveys" not in K.module.relpath:
+            continue
+        body_defs = set()
+        for st in K.node.body:
+            if isinstance(st, (ast.Assign, ast.AnnAssign)):
+                for t in (st.targets if isinstance(st, ast.Assign) else [st.target]):
+                    if isinstance(t, ast.Name):
+                        body_defs.add(t.id)
+        fns = list(K.methods.values()) + [f for pr in K.props.values() for f in (pr.getter, pr.setter, pr.deleter) if f is not None and f.cls is K]
+        for fn in fns:
+            for x in ast.walk(fn.node):
+                if isinstance(x, ast.Attribute) and isinstance(x.ctx, (ast.Store,)) and x.attr.startswith("__") and not x.attr.endswith("__"):
+                    body_defs.add(x.attr)
+        for fn in fns:
+            for x in ast.walk(fn.node):
+                if isinstance(x, ast.Attribute) and isinstance(x.ctx, ast.Load) and x.attr.startswith("__") and not x.attr.endswith("__") \
+                        and isinstance(x.value, ast.Name) and x.value.id in ("self", "cls"):
+                    ok = x.attr in body_defs
+                    res.inst(f"{K.name}.{fn.name}: reads {x.value.id}.{x.attr}, defined in {K.name}: {ok}", ok=ok)
+                    if not ok:
+                        res.find(K.name, fn.prop or fn.name, f"reads {x.value.id}.{x.attr}, which {K.name} does not define", f"{fn.module.relpath}:{x.lineno}",
+                                 f"`{x.value.id}.{x.attr}` is mangled to _{K.name}{x.attr}; only a parent class defines {x.attr}, so every call raises AttributeError")
+    return res
+
+
+RULES = [rule_keys, rule_prop, rule_copy, rule_store, rule_mangle]
